@@ -21,13 +21,24 @@ def slice_(tier, seed, scale=1):
     for idx, name, ast, src, args in enumprog.programs(4, stride=s4, offset=seed, minsize=4):
         items.append((name, src, args))
         asts.append(ast)
+    na = len(items)
+    # second dialect (named loops and break L0, try with catch (outofspace) / (nomatch), a one-byte string, delete, character append,
+    # multi-pattern / end case arms, if / elif, the `end` pattern; always with EOF support)
+    for idx, name, ast, src, args in enumprog.programs2(3, stride=s3, offset=seed):
+        items.append((name, src, args))
+        asts.append(ast)
+    for idx, name, ast, src, args in enumprog.programs2(4, stride=s4, offset=seed, minsize=4):
+        items.append((name, src, args))
+        asts.append(ast)
     return items, asts, {'size_le_3_stride': s3, 'size_4_stride': s4, 'size_le_3_total': enumprog.count(3),
-                         'size_4_total': enumprog.count(4) - enumprog.count(3), 'programs': len(items)}
+                         'size_4_total': enumprog.count(4) - enumprog.count(3), 'second_dialect_size_le_3_total': enumprog.count2(3),
+                         'second_dialect_size_4_total': enumprog.count2(4) - enumprog.count2(3), 'programs': len(items),
+                         'programs_first_dialect': na, 'programs_second_dialect': len(items) - na}
 
 
 def describe(info, accepted=None):
     d = dict(info)
-    d['rule'] = ('every statement program of the grammar in gen/enumprog.py with <= 3 nodes (every %d-th, offset = seed) and every %d-th with 4 nodes'
+    d['rule'] = ('every statement program of the two grammars in gen/enumprog.py with <= 3 nodes (every %d-th, offset = seed) and every %d-th with 4 nodes'
                  % (info['size_le_3_stride'], info['size_4_stride']))
     if accepted is not None:
         d['accepted'] = accepted
